@@ -11,7 +11,8 @@ import StepModel.P21Safe
   `exportList`                            the export-list loop of `STEPfile::CreateScopeInstances` / `ReadScopeInstances`
 
 The C++ keeps the *stale* value of `char c` when an extraction fails; the model threads `c` explicitly.
-Every loop iteration costs one unit of `steps`; a loop that is handed too little fuel answers `.outOfFuel`. -/
+Every loop iteration costs one unit of `steps`; reading a string literal and a `getline` additionally cost the bytes they
+consume (their inner loops); a loop that is handed too little fuel answers `.outOfFuel`. -/
 namespace StepModel.P21Safe
 
 /-- the part of `std::istream` the loops use: consumed bytes (latest first), remaining bytes, eofbit, failbit|badbit,
@@ -224,7 +225,7 @@ def scanAfter (rec : IS → Byte → Nat → Nat → Out LoopRes) (stop : Byte) 
     else rec s2 c1 (len + 1) (steps + 1)
   else if c1 = chQuote then
     let (s2, str) := sdaiStringRead (s1.putback c1)
-    rec s2 c1 (len + (cstr str).length) (steps + 1)
+    rec s2 c1 (len + (cstr str).length) (steps + 1 + str.length)
   else if c1 = 0 then .ok ⟨s1, sevInputError, len, steps + 1⟩
   else rec s1 c1 (len + 1) (steps + 1)
 
@@ -318,7 +319,7 @@ def headerLoop (n : Nat) (ex : ExitCond) : Nat → IS → List Byte → Nat → 
       | .notGood => !s.good
     if giveUp then .ok ⟨s, 0, 0, steps⟩ else
     let (s1, buf1) := getline n chSemi s
-    headerLoop n ex fuel s1 buf1 (steps + 1)
+    headerLoop n ex fuel s1 buf1 (steps + 1 + buf1.length)
 
 /-- `sev` carries the return value (1 = found).  (`ReadTokenSeparator` first, with the regenerated comment limit
 passed by the caller through `iters`.) -/
